@@ -220,7 +220,7 @@ def run(ctx):
                     # whether the reading was used cannot be told from the result
                     ctx.count("update_indistinguishable_from_discard"); continue
                 ctx.fail("discard-spurious", f"NIS {float(want['nis'])!r} <= threshold {thr!r} (k={k}): the reading was discarded", case)
-            y_rec = np.asarray(ekf.innovations[key], dtype=float)
+            y_rec = eh.recorded(ekf.innovations, key)
             if not eh.mat_close(y_rec, [[v] for v in want["y"]]):
                 ctx.fail("discard-innovation-not-recorded", "the innovation recorded for a reading differs from z - h(x)", case)
         # a simulated measurement: the reading object is what the filter's OWN sensor model returns for a (far away) true state
@@ -250,7 +250,7 @@ def run(ctx):
                     if should != unchanged:
                         ctx.fail("discard-missed" if should else "discard-spurious", f"a reading produced by the filter's own sensor model for another state, NIS "
                                  f"{float(want['nis'])!r} vs threshold {thr!r}: {'used' if should else 'discarded'}", case)
-                    elif not eh.mat_close(np.asarray(ekf.innovations[key], dtype=float), [[v_] for v_ in want["y"]]):
+                    elif not eh.mat_close(eh.recorded(ekf.innovations, key), [[v_] for v_ in want["y"]]):
                         ctx.fail("discard-innovation-not-recorded", "the innovation recorded for a reading produced by the filter's own sensor model differs "
                                  "from z - h(x)", case)
                 except Exception as e:
@@ -330,7 +330,7 @@ def badly_scaled_innovation_covariance(ctx):
                     if eh.mat_close(np.array([[float(v) for v in r] for r in want["P"]]), P):
                         ctx.count("update_indistinguishable_from_discard"); continue
                     ctx.fail("discard-spurious:badly-scaled", f"exact NIS {nis!r} <= threshold {thr!r} (k={k}): the reading was discarded", case)
-                y_rec = np.asarray(ekf.innovations["s"], dtype=float)
+                y_rec = eh.recorded(ekf.innovations, "s")
                 if y_rec.shape != (m, 1) or not eh.mat_close(y_rec, [[v] for v in want["y"]]):
                     ctx.fail("discard-innovation-not-recorded:badly-scaled", f"the innovation recorded for the reading, {y_rec.reshape(-1).tolist()}, "
                              f"differs from z - h(x) = {[float(v) for v in want['y']]}", case)
